@@ -182,11 +182,13 @@ pub const ZERO_TAIL: usize = 1024;
 
 /// one traced generation from fuzzer bytes on a fresh generator
 pub fn run_bytes(cfg: &Cfg, data: &[u8], record: bool, graph: bool) -> RunResult {
+    let _w = crate::watch::enter(cfg, data, None);
     let mut g = cfg.build();
     run_on(&mut g, Entropy::Bytes(data), record, graph)
 }
 
 pub fn run_seed(cfg: &Cfg, seed: u64, record: bool) -> RunResult {
+    let _w = crate::watch::enter(cfg, &[], Some(seed));
     let mut g = cfg.build().with_seed(seed);
     run_on(&mut g, Entropy::Seeded, record, false)
 }
